@@ -63,7 +63,10 @@ EDGE = ['C[CH]C |^1:1|', '[CH3] |^1:0|', 'C[N](C)[O] |^1:3|', '[O]N=O |^1:0|', '
         # chelates drawn with covalent aromatic-N - metal bonds inside a ring: kekule()'s ring repair turns those bonds into
         # coordinate bonds, which changes the ring set while the ring caches may already be filled
         '[Cu]1n2ccccc2-c2ccccn12', 'Cl[Pt]1(Cl)n2ccccc2-c2ccccn12', '[Zn]1n2ccccc2-c2ccccn12', 'c1ccn2[Pd]n3ccccc3-c2c1',
-        '[Cu]1n2cccc3ccc4cccn1c4c32', 'c1ccn(cc1)[Cu]', 'C1=CC=N2[Cu]N3=CC=CC=C3C2=C1', '[Fe]1n2ccccc2C=N1', 'O=C1O[Cu]n2ccccc12']
+        '[Cu]1n2cccc3ccc4cccn1c4c32', 'c1ccn(cc1)[Cu]', 'C1=CC=N2[Cu]N3=CC=CC=C3C2=C1', '[Fe]1n2ccccc2C=N1', 'O=C1O[Cu]n2ccccc12',
+        # cages: the only molecules on which `_is_condensed_ring` reaches its `common = keys & keys` set (reviewed site), so the
+        # site replay covers all six reviewed sites on every run
+        'C12C3C4C1C5C2C3C45', 'C12C3C1C23', 'C12C3C1C4C2C34', 'CC12C3C4C1C5C2C3C45C']
 QUERIES = ['[C;D1]', 'C=O', 'c:c', '[N,O;D1]', 'C-C-C', '[C;r6]']
 
 
